@@ -13,6 +13,19 @@ add("C19", "Lean 4 proof by `decide` over tables regenerated from the Go source 
     "Machine-checked theorems (Cpf.Props.C19) state that every kind a `&Node{}` literal of buildGraphFromAST can produce has a `case` in generateProxyEnv, an accessor table with toString, and only accessors that are defined and nil-safe for that kind. The tables are re-extracted from /repo each run, so the theorems are about the current source; the kitchen-sink scan ties 'kinds in the source' to 'kinds observed' and exercises every kind through the real processQuery.",
     COMMON_NOTE, "DESIGN.md §6 C19")
 
+add("C01", "Lean 4 refinement proof of the engine model (induction over the FROM fold) + differential run of model and real QueryEntities on real atom tables + independent reference evaluation",
+    "Theorem C01_complete: for every graph, FROM list, condition shape and atom meaning, every combination in the cross product on which the condition is true is in queryEntities' result (the model mirrors graph/query.go after the fix that removed the unsound narrowing). The model is tied to the code by running both on the same queries: the real expr-lang environment supplies each atom's value per combination, the Lean driver predicts the composite result, and a generator-side reference evaluation (predicates inlined by the generator) is the oracle for missed matches. Condition shapes are enumerated exhaustively to a fixed depth over 3 atoms; random deeper queries with predicates, two entities, keyword-bearing literals.",
+    COMMON_NOTE + " expr-lang's evaluation of an atom is opaque to the model (atoms are parameters); its parser is assumed to agree with Query.g4 on ||, &&, ! precedence (validated differentially).", "DESIGN.md §6 C01")
+add("C02", "Lean 4 proof (soundness, duplicate-freeness by induction over the product fold, no-WHERE = cross product) + the same differential sweep judged for spurious / duplicated / wrongly-typed combinations",
+    "Theorems C02_sound, C02_nodup, C02_no_where(_mem), C02_compile_error over the engine model, for all graphs/queries/atom meanings. Tie and oracle as for C01; additionally every reported combination is checked to consist of existing entities of the FROM kinds in FROM order, and multiplicities are compared (multisets).",
+    COMMON_NOTE, "DESIGN.md §6 C02")
+add("C11", "Lean 4 proof that the list-of-successes recogniser is sound and complete for the inductive derivation relation of an arbitrary EBNF grammar (the grammar is regenerated from Query.g4 each run) + exhaustive differential vs ANTLR and vs an independent Earley recogniser",
+    "parse_sound / parse_complete are proved once for every grammar (functional induction / induction on derivations), so editing Query.g4 re-proves; C11_accept_iff, C11_reject_partial, C11_lex_error state acceptance = membership and diagnostics otherwise. ANTLR's generated parser cannot be translated, so it is tied exhaustively: every sentence up to N tokens over a reduced alphabet and single-token edits are run through the real ParseQuery, the Lean model and an independent Python lexer+Earley recogniser (oracle); structure (FROM items, SELECT kinds, predicates) is compared on random laid-out queries against what the generator wrote.",
+    COMMON_NOTE + " Gap stated in Lean (C11_full): completeness for the driver's fixed fuel needs a derivation-height bound that is not proved.", "DESIGN.md §6 C11")
+add("C12", "Lean 4 proof of the set laws on the engine model (and unconditional; or/not where the operand does not fail; De Morgan, absorption, distribution, double negation unconditional; counter-example theorems for the full or/not statements) + metamorphic set-law check on real results",
+    "C12_and, C12_or_partial, C12_not_partial, C12_equiv and the equivalence instances hold for all graphs, FROM lists and atom meanings, including atoms outside any reference fragment. The full or/not laws are refuted in Lean by a witness and on the implementation by a replay (recorded finding C12:runtime-error-in-operand). The check evaluates related queries on the real engine and verifies the laws on the real result sets, and runs all of them through the Lean model.",
+    COMMON_NOTE, "DESIGN.md §6 C12")
+
 def main():
     hooks_commits = subprocess.run(["git", "-C", "/repo", "log", "--format=%H %s", "--grep=^verif:"], capture_output=True, text=True).stdout.strip().splitlines()
     m = dict(
